@@ -5,7 +5,8 @@
 EXTENDS QmlDir, Json, IOUtils, Randomization
 N == atoi(IOEnv.LIMIT)
 Dirs == {"a", "b", "a/s"}
-F(d, n, r, imp, kids) == [dir |-> d, name |-> n, root |-> r, imports |-> imp, kids |-> kids]
+F(d, n, r, imp, kids) == [dir |-> d, name |-> n, root |-> r, imports |-> imp, kids |-> kids, qt |-> "plain"]
+Fq(d, n, r, imp, kids, q) == [dir |-> d, name |-> n, root |-> r, imports |-> imp, kids |-> kids, qt |-> q]
 Lay(fs) == [dirs |-> Dirs, files |-> fs]
 Crafted == {
   \* the example project: child import
@@ -37,6 +38,13 @@ Crafted == {
   \* a component wrapping an imported component of the same name, used as the root of a further component: two distinct classes named B are ancestors
   Lay(<<F("a", "M", "QWidget", <<>>, <<"A", "B">>), F("a", "A", "B", <<>>, <<>>), F("a", "B", "B", <<"b">>, <<>>), F("b", "B", "QPushButton", <<>>, <<>>)>>),
   Lay(<<F("a", "M", "A", <<>>, <<"A">>), F("a", "A", "D", <<"a/s">>, <<>>), F("a/s", "D", "D", <<"b">>, <<>>), F("b", "D", "D", <<"a">>, <<>>), F("a", "D", "QLabel", <<>>, <<>>)>>),
+  \* the Qt module imported with a version (ignored), in components and in the document
+  Lay(<<Fq("a", "M", "QWidget", <<"b">>, <<"A", "C", "QLabel">>, "versioned"), Fq("a", "A", "QPushButton", <<>>, <<>>, "versioned"), Fq("b", "C", "A", <<"a">>, <<>>, "versioned")>>),
+  \* files that do not import the Qt module: second-level components and documents made of components only are fine, Qt names are unknown there
+  Lay(<<Fq("a", "M", "A", <<>>, <<"A", "B">>, "none"), Fq("a", "A", "B", <<>>, <<>>, "none"), F("a", "B", "QLabel", <<>>, <<>>),
+        Fq("a", "N", "QWidget", <<>>, <<"A">>, "none"), Fq("a", "O", "A", <<>>, <<"QLabel">>, "none"), F("a", "P", "QWidget", <<>>, <<"A", "B">>)>>),
+  Lay(<<F("a", "M", "QWidget", <<"b">>, <<"C", "A">>), Fq("b", "C", "D", <<"a/s">>, <<>>, "none"), Fq("a/s", "D", "A", <<"a">>, <<>>, "none"), Fq("a", "A", "QPushButton", <<>>, <<>>, "versioned"),
+        Fq("b", "X", "QLabel", <<>>, <<>>, "none"), Fq("b", "N", "C", <<>>, <<"C", "X">>, "none"), Fq("b", "O", "C", <<>>, <<"C">>, "none")>>),
   \* root object of the document is itself a component; same class as root and child
   Lay(<<F("a", "M", "A", <<>>, <<"A", "B">>), F("a", "A", "B", <<>>, <<>>), F("a", "B", "QWidget", <<>>, <<>>)>>) }
 \* ---- random layouts ---------------------------------------------------------------------------------
@@ -46,17 +54,20 @@ Kid == <<"A", "B", "C", "D", "A", "B", "C", "D", "QLabel", "QPushButton", "Nope"
 Dir == <<"a", "b", "a/s", "a", "b", "a/s", "a", "b", "a/s", "nodir">>
 Imps(z) == Pick(<< <<>>, <<>>, <<Pick(Dir)>>, <<Pick(Dir)>>, <<Pick(Dir)>>, <<Pick(Dir), Pick(Dir)>>, <<Pick(Dir), Pick(Dir)>> >>)
 Kids(z) == Pick(<< <<>>, <<Pick(Kid)>>, <<Pick(Kid), Pick(Kid)>>, <<Pick(Kid), Pick(Kid), Pick(Kid)>>, <<Pick(Kid), Pick(Kid), Pick(Kid), Pick(Kid)>> >>)
-Comp(d, n) == Pick(<< <<F(d, n, Pick(Roots), Imps(1), <<>>)>>, <<F(d, n, Pick(Roots), Imps(1), Kids(1))>>, <<>> >>)
-Random(z) == <<F("a", "M", Pick(<<"QWidget", "QWidget", "A", "C">>), Imps(1), Kids(1))>> \o Comp("a", "A") \o Comp("a", "B") \o Comp("b", "B") \o Comp("b", "C")
+Qts == <<"plain", "plain", "versioned", "none">>
+Comp(d, n) == Pick(<< <<Fq(d, n, Pick(Roots), Imps(1), <<>>, Pick(Qts))>>, <<Fq(d, n, Pick(Roots), Imps(1), Kids(1), Pick(Qts))>>, <<>> >>)
+Random(z) == <<Fq("a", "M", Pick(<<"QWidget", "QWidget", "A", "C">>), Imps(1), Kids(1), Pick(Qts))>> \o Comp("a", "A") \o Comp("a", "B") \o Comp("b", "B") \o Comp("b", "C")
           \o Comp("a/s", "D") \o Comp("a/s", "A") \o Pick(<< <<>>, <<F("b", "N", "QWidget", Imps(1), Kids(1))>> >>)
 \* friendly layouts: every name resolves somewhere, most roots are Qt classes; acceptance is decided by shadowing and cycles
 Roots2 == <<"QWidget", "QLabel", "QPushButton", "QWidget", "QLabel", "QPushButton", "A", "B", "D", "C">>
 Kid2 == <<"A", "B", "C", "D", "A", "B", "C", "D", "QLabel">>
 Imps2(z) == Pick(<< <<"a", "b", "a/s">>, <<"a/s", "b", "a">>, <<"b", "a/s">>, <<"b", "a">>, <<"a/s", "a", "b">>, <<"a", "a/s", "b">>, <<"b", "a", "a/s", "b">> >>)
 Kids2(z) == Pick(<< <<Pick(Kid2)>>, <<Pick(Kid2), Pick(Kid2)>>, <<Pick(Kid2), Pick(Kid2), Pick(Kid2)>>, <<Pick(Kid2), Pick(Kid2), Pick(Kid2), Pick(Kid2)>> >>)
-Comp2(d, n) == Pick(<< <<F(d, n, Pick(Roots2), Imps2(1), <<>>)>>, <<F(d, n, Pick(Roots2), Imps2(1), Kids2(1))>>, <<F(d, n, Pick(Roots2), <<>>, <<>>)>> >>)
-Friendly(z) == <<F("a", "M", Pick(<<"QWidget", "QWidget", "A", "C">>), Imps2(1), Kids2(1))>> \o Comp2("a", "A") \o Comp2("a", "B") \o Comp2("b", "B") \o Comp2("b", "C")
-          \o Comp2("a/s", "D") \o Pick(<< <<>>, Comp2("a/s", "A") >>) \o <<F("b", "N", "QWidget", Imps2(1), Kids2(1))>>
+\* friendly: a file goes without the Qt module only if it names no Qt class itself
+Fit(f) == IF f.root \in Qt \/ \E i \in 1..Len(f.kids) : f.kids[i] \in Qt THEN [f EXCEPT !.qt = Pick(<<"plain", "versioned">>)] ELSE [f EXCEPT !.qt = Pick(<<"none", "none", "plain", "versioned">>)]
+Comp2(d, n) == Pick(<< <<Fit(F(d, n, Pick(Roots2), Imps2(1), <<>>))>>, <<Fit(F(d, n, Pick(Roots2), Imps2(1), Kids2(1)))>>, <<Fit(F(d, n, Pick(Roots2), <<>>, <<>>))>> >>)
+Friendly(z) == <<Fit(F("a", "M", Pick(<<"QWidget", "QWidget", "A", "C">>), Imps2(1), Kids2(1)))>> \o Comp2("a", "A") \o Comp2("a", "B") \o Comp2("b", "B") \o Comp2("b", "C")
+          \o Comp2("a/s", "D") \o Pick(<< <<>>, Comp2("a/s", "A") >>) \o <<Fit(F("b", "N", Pick(<<"QWidget", "B", "C">>), Imps2(1), Kids2(1)))>>
 VARIABLES n, L
 Init == Start(Lay(<<>>), <<>>) /\ n \in 1..N /\ L = (IF n <= Cardinality(Crafted) THEN CHOOSE c \in Crafted : TRUE ELSE IF n % 3 = 0 THEN Lay(Random(n)) ELSE Lay(Friendly(n)))
 Next == UNCHANGED <<n, L, dvars>>
